@@ -91,3 +91,13 @@ PLANS.update({
     "C07": dict(level="exploration", jobs=multi(simple("traverse", (3000, 0), (200000, 0)), seq_plan((1500, 8), (60000, 200)), simple("seqmap", (400, 0), (30000, 0))), assumptions=SEQ_ASSUME + CONC_ASSUME, min_evaluations=100),
     "C13": dict(level="exploration", jobs=simple("term", (2400, 0), (150000, 0)), assumptions=["termination is decided as bounded progress: a per-call budget of 2^24 shim steps (single goroutine) or 2^28 steps without any call returning (stress), with polling locks so that every wait consumes steps; blocked-forever goroutines trip the runtime deadlock detector (no timers in the process)", "valueFn re-entrancy is excluded as the property says"], min_evaluations=100),
 })
+
+
+# concurrent components for properties whose sequential statement can also be broken only under an interleaving
+PLANS["C01"]["jobs"] = multi(seq_plan((4000, 24), (200000, 400)), simple("linzcache", (2000, 0), (100000, 0)))
+PLANS["C01"]["assumptions"] = SEQ_ASSUME + CONC_ASSUME
+PLANS["C09"]["jobs"] = multi(seq_plan((2000, 0), (200000, 0)), simple("linzcache", (2000, 0), (100000, 0)))
+PLANS["C09"]["assumptions"] = SEQ_ASSUME + CONC_ASSUME
+PLANS["C12"]["jobs"] = multi(seq_plan((3000, 12), (150000, 300)), simple("seqmap", (800, 0), (50000, 0)), simple("linzmap", (2500, 0), (100000, 0)), simple("linzcache", (1500, 0), (80000, 0)))
+PLANS["C12"]["assumptions"] = SEQ_ASSUME + CONC_ASSUME
+PLANS["C06"]["jobs"] = multi(seq_plan((3000, 0), (100000, 0)), simple("linzcache", (3000, 0), (150000, 0)), simple("janitor", (1, 0), (20, 0), stripes_q=2))
